@@ -6,7 +6,7 @@ From Tab Require Model.Core Spec.History Proofs.CoreSim.
 From Tab Require Model.Cell Proofs.CellProofs Proofs.TotalProofs.
 From Tab Require Model.Markdown Proofs.MarkdownProofs.
 From Tab Require Model.Json Proofs.JsonErrProofs.
-From Tab Require Model.Text Model.Decoration Spec.TextLayout Proofs.TextProps.
+From Tab Require Model.Text Model.Decoration Spec.TextLayout Proofs.TextProps Proofs.TextZero.
 From Tab Require Model.Html Proofs.HtmlProofs.
 
 (* Render(): an error always comes with the empty string, whatever RenderTo did *)
@@ -36,10 +36,9 @@ Print Assumptions c09_csv_total.
    and magnitude, nested cells (Model/Cell.v) - the view the renderers see is
    well-formed, and on it: CSV, Markdown and JSON never panic (any width
    measure W, any encoding/json oracle); the text renderer never panics under
-   any complete or boxless decoration when the table has a column, and refuses
-   the empty decoration with an error; HTML always renders, whatever id, class,
-   caption and row-class generator.  The text renderer on a table with NO
-   column is not covered by a theorem (the executions of the check cover it). *)
+   any complete or boxless decoration (tables with no column included), and
+   refuses the empty decoration with an error; HTML always renders, whatever
+   id, class, caption and row-class generator. *)
 Theorem c09_total :
   forall (W : bytes -> nat) (e : Cell.env) (json : Cell.item -> option bytes) (strenc : bytes -> bytes)
          (h : list (Ops.op Cell.item)),
@@ -49,7 +48,7 @@ Theorem c09_total :
   /\ render_string (csv_render v) <> Panic
   /\ render_string (Markdown.md_render W v) <> Panic
   /\ render_string (Json.json_render strenc v) <> Panic
-  /\ (forall d, 1 <= v_ncols v -> TextLayout.dec_ok d -> render_string (Text.text_render W d v) <> Panic)
+  /\ (forall d, TextLayout.dec_ok d -> render_string (Text.text_render W d v) <> Panic)
   /\ (forall d, Decoration.is_empty_decoration d = true -> render_string (Text.text_render W d v) = Ok ([], true))
   /\ (forall id cls cap have rcs, HtmlProofs.rc_fit (Html.mkHtmlIn id cls cap have rcs v) ->
         exists out, render_string (Html.html_render (Html.mkHtmlIn id cls cap have rcs v)) = Ok (out, false)).
@@ -61,7 +60,7 @@ Proof.
   split; [apply c09_render_string_no_panic, MarkdownProofs.md_no_panic, Hv|].
   split; [apply c09_render_string_no_panic, JsonErrProofs.json_no_panic, Hv|].
   split.
-  { intros d Hn Hd. apply c09_render_string_no_panic, TextProps.no_panic_proof; try assumption.
+  { intros d Hd. apply c09_render_string_no_panic, TextZero.text_no_panic_all; try assumption.
     apply TotalProofs.view_of_cells_all. intros a. apply TotalProofs.vcell_of_item_cell_ok. }
   split.
   { intros d Hd. rewrite (TextProps.empty_decoration_err_proof W d v Hd). reflexivity. }
